@@ -1353,7 +1353,7 @@ class Wtp:
                             expand_args(args[0], argmap), parent, True
                         ).strip()
                         self.expand_stack.pop()
-                        if k.isdigit() and int(k) > 0:
+                        if k.isascii() and k.isdigit() and int(k) > 0:
                             k = int(k)
                         else:
                             k = re.sub(r"\s+", " ", k).strip()
@@ -1579,7 +1579,7 @@ class Wtp:
                             # (but not around unnamed parameters)
                             k, arg = m2.groups()
                             is_named = True
-                            if k.isdigit() and int(k) > 0:
+                            if k.isascii() and k.isdigit() and int(k) > 0:
                                 k = int(k)
                             else:
                                 self.expand_stack.append("ARGNAME")
